@@ -87,6 +87,7 @@ def C01(ctx):
     kern.rule_result_cell(ctx, F)
     kern.rule_length_diff_exit(ctx, F.name, F.file, F.prologue.events, F.amap, F.outer_line)
     tables.rule_settings_defaults(ctx, m)
+    tables.rule_adj_stores(ctx, m)
     misc.rule_dispatch(ctx, m, 'dtaidistance.innerdistance', 'inner_dist_cls', 'inner_dist', documented=[])
     tables.rule_inner_dist_table(ctx, m)
     misc.rule_optional_numpy(ctx, m, ['dtaidistance.dtw', 'dtaidistance.innerdistance', 'dtaidistance.ed'])
@@ -121,6 +122,8 @@ def C02(ctx):
         fwd.rule_delegation(ctx, m, ['dtaidistance.dtw', 'dtaidistance.dtw_ndim'])
     tables.rule_pyx_siblings(ctx, m)
     cshape.rule_ndim_stride(ctx, m, NDIM_FUNCS[:4])
+    with ctx.scoped(has('verify_np_array', 'c_data_compat')):
+        pyshape.rule_series_container(ctx, m)        # the C engine must be handed the same numbers in C order
     cshape.rule_config_invariance(ctx, m)
     cshape.rule_sibling_skeleton(ctx, m, ['dtw_distance', 'dtw_distance_ndim', 'euclidean_distance', 'euclidean_distance_ndim', 'ub_euclidean', 'ub_euclidean_ndim'])
     cshape.rule_variant_callees(ctx, m)
@@ -133,6 +136,7 @@ def C03(ctx):
     m = model(ctx.repo)
     from .rules import wps, bounds
     wps.rule_wps_epilogue(ctx, m)
+    wps.rule_parts_domains(ctx, m)
     with ctx.scoped(lambda r, t: r in ('R-PRUNE',)):
         wps.rule_wps_writers(ctx, m, affinity=False, tier=ctx.tier)
     bounds.rule_euclidean(ctx, m)
@@ -146,6 +150,7 @@ def C03(ctx):
     tables.rule_settings_defaults(ctx, m)
     with ctx.scoped(has('DTWSettings.', 'ub_euclidean')):
         fwd.rule_delegation(ctx, m, ['dtaidistance.dtw', 'dtaidistance.dtw_ndim'])     # the pruning bound is computed with the settings in effect
+    tables.rule_adj_stores(ctx, m)
     ctx.floor('R-PRUNE', 50, '5 rolling kernels + 2 warping_paths modes')
 
 
@@ -162,6 +167,7 @@ def C04(ctx):
         sig.rule_pxd_vs_header(ctx, m)
     from .rules import wps
     wps.rule_wps_writers(ctx, m, affinity=False, tier=ctx.tier)
+    wps.rule_parts_domains(ctx, m)
     wps.rule_pyx_direct_matrix(ctx, m)
     wps.rule_direct_identity(ctx, m)
     wps.rule_wps_epilogue(ctx, m)
@@ -185,6 +191,8 @@ def C05(ctx):
     wps.rule_best_path_moves(ctx, m)
     wps.rule_best_path_prob_moves(ctx, m)
     wps.rule_best_path_markers(ctx, m)
+    wps.rule_pyx_path_assembly(ctx, m)
+    tables.rule_none_zero_encoding(ctx, m)
     for kir in (True, False):
         with ctx.scoped(lambda r, t: r == 'R-BAND'):
             _wp(ctx, m, kir, ['band'])          # a path traced through an out-of-band cell is not a valid warping path
@@ -237,6 +245,8 @@ def C08(ctx):
     from .rules import bounds
     with ctx.scoped(lambda r, t: 'lb_keogh' in t and 'dd_dtw.c' in t):
         bounds.rule_lb_keogh(ctx, m)             # the envelope scan reads s2[imin:imax]: imax beyond l2 is an out-of-bounds read
+    with ctx.scoped(lambda r, t: 'dd_ed.c' in t):
+        bounds.rule_euclidean(ctx, m)            # the padding loops read element n-1 of the shorter series: n would be one past its end
     cshape.rule_config_invariance(ctx, m)
     with ctx.scoped(has('output slot', 'output store', 'pair counter', 'prefix-sum plan', 'row index')):
         iterspace.rule_omp(ctx, m)      # the parallel regions write output[slot]: the slot arithmetic bounds the write
@@ -283,6 +293,10 @@ def C10(ctx):
     bounds.rule_point_distance(ctx, m, _kernels(ctx, m))
     tables.rule_matrix_conversion(ctx, m)
     tables.rule_settings_defaults(ctx, m)
+    # the laws are stated on the public entry points: every option must reach the kernel under its own name, in both engines
+    fwd.rule_delegation(ctx, m, ['dtaidistance.dtw', 'dtaidistance.dtw_ndim'])
+    fwd.rule_key_tables(ctx, m)
+    tables.rule_none_zero_encoding(ctx, m)
     ctx.floor('R-BAND', 25, '5 kernels + laws')
 
 
@@ -301,6 +315,8 @@ def C11(ctx):
         cshape.rule_shadow(ctx, m)
     from .rules import bounds
     bounds.rule_ndim_siblings(ctx, m)
+    bounds.rule_point_distance(ctx, m, _kernels(ctx, m))        # vector point distances of the Python inner-distance classes and the C kernels
+    cshape.rule_variant_callees(ctx, m)
     cshape.rule_sibling_skeleton(ctx, m, ['dtw_distance_ndim', 'dtw_warping_paths_ndim', 'euclidean_distance_ndim', 'ub_euclidean_ndim'])
     tables.rule_inner_dist_table(ctx, m)
     pyshape.rule_series_container(ctx, m)
@@ -318,6 +334,8 @@ def C12(ctx):
         sig.rule_py_to_pyx(ctx, m, ['dtaidistance.dtw_barycenter'])
         cshape.rule_c_no_input_stores(ctx, m)
     fwd.rule_delegation(ctx, m, ['dtaidistance.dtw_barycenter'])
+    with ctx.scoped(has('warping_path')):
+        fwd.rule_delegation(ctx, m, ['dtaidistance.dtw_ndim'])       # the n-D alignment used by the Python update step
     from .rules import wps
     wps.rule_best_path_prob_moves(ctx, m)      # the sampled alignment used by DBA with nb_prob_samples
     ctx.floor('R-PATH', 12, 'C + Python DBA path rules')
@@ -327,6 +345,9 @@ def C13(ctx):
     m = model(ctx.repo)
     pyshape.rule_subseq_align(ctx, m)
     cshape.rule_ndim_stride(ctx, m, NDIM_FUNCS[4:6])      # the C matrix behind use_c=True for multivariate queries
+    with ctx.scoped(has('warping_paths')):
+        pyshape.rule_contiguity(ctx, m, ['dtaidistance.dtw', 'dtaidistance.dtw_ndim'])     # align(use_c=True) hands query and series to warping_paths_fast
+        sig.rule_pyx_to_c(ctx, m)
     with ctx.scoped(has('subsequencealignment')):
         sig.rule_imports(ctx, m, ['dtaidistance.subsequence.subsequencealignment'])
         sig.rule_py_to_pyx(ctx, m, ['dtaidistance.subsequence.subsequencealignment'])
@@ -344,6 +365,8 @@ def C14(ctx):
         sig.rule_imports(ctx, m, ['dtaidistance.subsequence.subsequencesearch'])
     from .rules import bounds
     bounds.rule_lb_keogh(ctx, m)        # exactness under use_lb needs the bound to be a lower bound in both engines
+    for F in _kernels(ctx, m):
+        _py_distance_rules(ctx, m, F, ['prune'])      # the running k-th best threshold is passed as max_dist: pruning must be exact
     ctx.floor('R-PATH', 8, 'search loop rules')
 
 
@@ -353,6 +376,8 @@ def C15(ctx):
     # merges are decided on the distance matrix of dists_fun: pairs may only be excluded (inf) by the options' own rules
     for F in _kernels(ctx, m):
         kern.rule_length_diff_exit(ctx, F.name, F.file, F.prologue.events, F.amap, F.outer_line)
+    with ctx.scoped(has('pair order', 'kernel must be called', 'kernel call')):
+        iterspace.rule_iter_c_serial(ctx, m)
     ctx.floor('R-PATH', 10, 'merge loop + tree hook')
 
 
@@ -366,6 +391,11 @@ def C16(ctx):
     for F in _kernels(ctx, m):
         if F.lang == 'c' and F.name in ('dtw_distance', 'dtw_distance_ndim'):
             _py_distance_rules(ctx, m, F, ['dom'])
+    # ... and the options of dists_options reach those distances: Python n-D wrapper, Cython settings object (the helpers pass raw, partial kwargs)
+    with ctx.scoped(has('dtw_ndim:distance ', 'dtw_ndim:distance:', ':distance:')):
+        fwd.rule_delegation(ctx, m, ['dtaidistance.dtw_ndim'])
+    fwd.rule_unused_params(ctx, m, [('dtaidistance.dtw_ndim', 'distance'), ('dtaidistance.dtw_ndim', 'distance_fast')])
+    tables.rule_none_zero_encoding(ctx, m)
     ctx.floor('R-PATH', 6, 'fit path rules + helpers')
 
 
@@ -378,6 +408,7 @@ def C17(ctx):
     pyshape.rule_alignment_tables(ctx, m)
     pyshape.rule_nw_border(ctx, m)
     pyshape.rule_dp_empty_row(ctx, m)
+    misc.rule_identity(ctx, m, ['dtaidistance.alignment', 'dtaidistance.dp'])
     misc.rule_return_arity(ctx, m, [('dtaidistance.dp', 'dp'), ('dtaidistance.alignment', 'needleman_wunsch')])
     ctx.floor('R-REC', 2, 'dp scheme')
 
@@ -424,8 +455,10 @@ def C20(ctx):
     from .rules import purity
     purity.rule_globals(ctx, m, ALL_PY + EXTRA_PY)
     purity.rule_history(ctx, m)
-    with ctx.scoped(has('threshold reset', 'k recorded', 'cache reuse')):
+    with ctx.scoped(has('threshold reset', 'k recorded', 'cache reuse', 'k clamp')):
         pyshape.rule_subseq_search(ctx, m)
+    with ctx.scoped(has('row offset advance')):
+        cshape.rule_dba_c(ctx, m)                  # matrix container and pointer container must read the same series
     ctx.floor('R-EFF', 80, 'Python + C functions with series parameters')
     ctx.floor('R-SAN', 40, 'strided memoryview arguments')
 
